@@ -1015,6 +1015,7 @@ pub struct ObjFiber {
     pub(crate) exc_handlers: Vec<ExcHandler>,
     pub(crate) return_ip: Option<*const u8>,
     pub(crate) error_ip: Option<*const u8>,
+    pub(crate) error_depth: usize,
 }
 
 impl ObjFiber {
@@ -1038,6 +1039,7 @@ impl ObjFiber {
             exc_handlers: Vec::new(),
             return_ip: None,
             error_ip: None,
+            error_depth: 0,
         }
     }
 
@@ -1123,9 +1125,18 @@ impl ObjFiber {
         }
     }
 
+    /// Records `ip` as the site of the exception now being raised in the innermost frame.
+    pub(crate) fn record_error_site(&mut self, ip: *const u8) {
+        self.error_ip = Some(ip);
+        self.error_depth = self.frames.len();
+    }
+
     pub(crate) fn store_error_ip_or(&mut self, alternative: *const u8) {
-        self.current_frame_mut().expect("Expected CallFrame.").ip =
-            self.error_ip.unwrap_or(alternative);
+        let site = match self.error_ip {
+            Some(ip) if self.error_depth == self.frames.len() => ip,
+            _ => alternative,
+        };
+        self.current_frame_mut().expect("Expected CallFrame.").ip = site;
     }
 
     pub(crate) unsafe fn unchecked_native_frame_slot(&self, index: usize) -> Value {
